@@ -204,6 +204,18 @@ func ReuseWAL(cfg *config.Config, dir string, nextSeq uint64) (*WAL, error) {
 		return nil, nil
 	}
 
+	// A crash can leave a partially written record (or an unfinished fragmented
+	// entry) at the end of the file. Replay stops there, so anything appended
+	// behind it would never be read again: cut the torn tail off first.
+	size := stat.Size()
+	if valid, torn := completeEntriesLength(latestWAL); torn && valid < size {
+		if err := file.Truncate(valid); err != nil {
+			file.Close()
+			return nil, fmt.Errorf("failed to truncate torn WAL tail: %w", err)
+		}
+		size = valid
+	}
+
 	if !DisableRecoveryLogs {
 		fmt.Printf("Reusing existing WAL file: %s with next sequence %d\n",
 			latestWAL, nextSeq)
@@ -215,13 +227,48 @@ func ReuseWAL(cfg *config.Config, dir string, nextSeq uint64) (*WAL, error) {
 		file:         file,
 		writer:       bufio.NewWriterSize(file, 64*1024), // 64KB buffer
 		nextSequence: nextSeq,
-		bytesWritten: stat.Size(),
+		bytesWritten: size,
 		lastSync:     time.Now(),
 		status:       WALStatusActive,
 		observers:    make(map[string]WALEntryObserver),
 	}
 
 	return wal, nil
+}
+
+// completeEntriesLength walks the physical records of a WAL file and returns
+// the length of the prefix that ends with a complete entry (a full record or
+// the last fragment of a fragmented one). torn is true only if the walk ended
+// at the end of the file inside a record or inside a fragmented entry; a file
+// with an unknown record type is left alone for the corruption handling.
+func completeEntriesLength(path string) (valid int64, torn bool) {
+	f, err := os.Open(path)
+	if err != nil {
+		return 0, false
+	}
+	defer f.Close()
+
+	r := bufio.NewReader(f)
+	header := make([]byte, HeaderSize)
+	var offset int64
+	for {
+		if _, err := io.ReadFull(r, header); err != nil {
+			// io.EOF: clean end (torn only if fragments are pending)
+			return valid, err == io.ErrUnexpectedEOF || (err == io.EOF && offset != valid)
+		}
+		recordType := header[6]
+		if recordType < RecordTypeFull || recordType > RecordTypeLast {
+			return valid, false
+		}
+		length := int64(binary.LittleEndian.Uint16(header[4:6]))
+		if n, err := io.CopyN(io.Discard, r, length); err != nil || n != length {
+			return valid, true
+		}
+		offset += int64(HeaderSize) + length
+		if recordType == RecordTypeFull || recordType == RecordTypeLast {
+			valid = offset
+		}
+	}
 }
 
 // Append adds an entry to the WAL
